@@ -553,7 +553,7 @@ ASSUMPTIONS = [
     "fl(a op b) = (a op b)(1+d), |d| <= u holds only in the absence of overflow and (for * and /) underflow; sum8_error_pred "
     "(gamma_(n-1)) and dot8_error (gamma_n) additionally need idempotent rounding (M.Idem) and representable inputs (Rep); "
     "logsumexp_error / logmeanexp_error assume a relative-error exp (false for f64 once x - max < -745: the term underflows; only "
-    "f64_logsumexp_note with spread max - min <= 700 and n <= 10000 applies to f64 as stated) and do not cover overflow of "
+    "stdmodel_logsumexp_note with spread max - min <= 700 and n <= 10000 applies to f64 as stated) and do not cover overflow of "
     "v - xmax for inputs near +-f64::MAX of opposite signs; the oracle ranges are chosen inside these provisos",
     "logsumexp / logmeanexp value theorems: non-empty input without NaN and without infinities (the empty slice is the separate "
     "guard theorem logsumexpE_nil)",
@@ -1530,7 +1530,7 @@ NOT_PROVED = NOT_PROVED + ['rounding of logsumexp / logmeanexp (oracle only); no
 
 # --- deep theorems (Rounding3)
 PROOF_MODULES = PROOF_MODULES + ['Compute.Lemmas.LogRounding', 'Compute.Props.Rounding3']
-REQUIRED_THEOREMS = REQUIRED_THEOREMS + ['Cv.Rounding3.logsumexp_error', 'Cv.Rounding3.logmeanexp_error', 'Cv.Rounding3.shiftedExpSum_near', 'Cv.Rounding3.f64_logsumexp_note']
+REQUIRED_THEOREMS = REQUIRED_THEOREMS + ['Cv.Rounding3.logsumexp_error', 'Cv.Rounding3.logmeanexp_error', 'Cv.Rounding3.shiftedExpSum_near', 'Cv.Rounding3.stdmodel_logsumexp_note']
 NOT_PROVED = [x for x in NOT_PROVED if not any(k in str(x) for k in ('rounding of logsumexp',))]
 
 # --- source tie, loops (tools/rs2lean.py loops=True: accumulation loops and iterator chains regenerated from /repo/src into
@@ -1543,3 +1543,8 @@ PROOF_MODULES = PROOF_MODULES + ['Compute.Lemmas.SrcLoops']
 # equal to Cv.sum8 / Cv.dot8 - the association every float-level theorem is about - in Props/SrcTieC04Mut.lean)
 from . import srctie
 srctie.wire_mut(globals(), 'C04')
+
+# --- review repairs in the Rounding layer (renamed stdmodel_* theorems, underflow-aware variants, genuine FlModel instance; wired by the lead)
+PROOF_MODULES = PROOF_MODULES + [m for m in ['Compute.Lemmas.FlModelGrid', 'Compute.Props.RoundingGrid'] if m not in PROOF_MODULES]
+REQUIRED_THEOREMS = REQUIRED_THEOREMS + [t for t in ['Cv.Rounding3U.logistic_range_ufl', 'Cv.Rounding3U.softmax_sum_error_ufl', 'Cv.FlModel.grid_abs_sub_le', 'Cv.FlModel.grid_idem', 'Cv.FlModel.grid_mono', 'Cv.FlModel.grid_rnd_one', 'Cv.FlModel.grid_rnd_natCast', 'Cv.FlModel.grid_rnd_dyadic', 'Cv.FlModel.f64grid_u', 'Cv.FlModel.f64grid_mono'] if t not in REQUIRED_THEOREMS]
+NOT_PROVED = list(NOT_PROVED) + ['theorems named stdmodel_* hold in the idealised standard model (fl(x) = x(1+d) for every operation, library functions with relative error <= u_f for every argument) at u = 2^-53; they describe binary64 only where nothing overflows or underflows (for exp: arguments in [-708.39, 709.78]); outside that range computed values may be exactly 0 or inf', 'under ExpLnUfl (exp computed as e^x(1+d)+eta, underflow allowed) logistic, softmax, RBF and RQ values are proved in [0,1] resp. >= 0 (namespace Rounding3U); strict positivity is a theorem of the no-underflow model only; logistic(800) = 1 and an RBF value of exactly 0 are exhibited', 'FlModel has a genuine instance, FlModel.grid p (radix 2, p digits, round to nearest, unbounded exponent; f64grid has u = 2^-53), proved to satisfy the standard model and to be idempotent and monotone, with integers <= 2^p and dyadics exact (Lemmas/FlModelGrid); headline rounding theorems are instantiated on it (Props/RoundingGrid); overflow and underflow remain outside the model']
